@@ -280,6 +280,11 @@ def run(chk: harness.Check):
                          f"function reachable from parsing takes {ty}")
     # positive control: the rule machinery must recognise effects on a fixture (see fixtures/effects)
     positive_control(chk)
+    if chk.tier == "thorough":
+        import thorough
+        ok, n, out = thorough.witnesses()
+        chk.expect(ok and n >= 9, "C18.D3-witness", "doc-test witnesses", "witnesses/src/lib.rs",
+                   f"type-level witnesses failed to hold ({n} passed): {out}", sample=f"{n} compile-pass / compile_fail witnesses hold (CooklangParser: Send + Sync, scoped threads share &parser)")
 
 
 def receiver_is_local(F: Facts, f, t) -> bool:
